@@ -4,6 +4,7 @@ import (
 	"encoding/json"
 	"fmt"
 	"math/rand"
+	"sort"
 	"strings"
 
 	"verif/harness/internal/core"
@@ -70,7 +71,9 @@ func crCases(c *core.Ctx) ([]json.RawMessage, error) {
 			cfg = "JSchemaScan_5.cfg"
 		}
 		n := 0
-		res, err := tlc.Run(tlc.Opts{Module: "JSchemaScan", Cfg: cfg, Workers: 16, Timeout: 0, HeapGB: 12, OnLine: func(l string) { emitScan(l, c.Pick(5, 9), &n) }})
+		// TLC's workers print in arrival order: sort, so that the seeded choices below are the same in every run
+		var scanLines []string
+		res, err := tlc.Run(tlc.Opts{Module: "JSchemaScan", Cfg: cfg, Workers: 16, Timeout: 0, HeapGB: 12, OnLine: func(l string) { scanLines = append(scanLines, l) }})
 		res.Cleanup()
 		if err != nil {
 			return nil, err
@@ -79,6 +82,10 @@ func crCases(c *core.Ctx) ([]json.RawMessage, error) {
 			return nil, err
 		}
 		c.AddTLC(cfg, res)
+		sort.Strings(scanLines)
+		for _, l := range scanLines {
+			emitScan(l, c.Pick(5, 9), &n)
+		}
 		n = 0
 		sim, err := tlc.Run(tlc.Opts{Module: "JSchemaScan", Cfg: "JSchemaScan_sim.cfg", Workers: 1, Simulate: fmt.Sprintf("num=%d", c.Pick(250, 2500)), Depth: 80, Seed: c.Seed,
 			OnLine: func(l string) { emitScan(l, 7, &n) }})
